@@ -204,6 +204,17 @@ func makeTxExtra(ccid []byte, n byte) []byte {
 	return sink.Bytes()
 }
 
+// makeTxPayload: a serialized MakeTxParam whose arguments are (destination, amount) as the ripple continuation reads them.
+func makeTxPayload(txHash, ccid, dst []byte, amount uint64, toContract []byte) []byte {
+	args := common.NewZeroCopySink(nil)
+	args.WriteVarBytes(dst)
+	args.WriteUint64(amount)
+	sink := common.NewZeroCopySink(nil)
+	(&ccom.MakeTxParam{TxHash: txHash, CrossChainID: ccid, FromContractAddress: []byte{9}, ToChainID: 2,
+		ToContractAddress: toContract, Method: "unlock", Args: args.Bytes()}).Serialization(sink)
+	return sink.Bytes()
+}
+
 // depositTok: "<chain> <height> <extra> <vote id> <cross chain id|none>" of a deposit op.
 func depositTok(chain uint64, height uint32, extra []byte) string {
 	us := common.NewZeroCopySink(nil)
@@ -823,6 +834,36 @@ func (f *gov) genVotes(s *sc) {
 			}
 			s.do("deposit %s %s %s", cons[thr-1].hex(), cons[thr-1].hex(), d)
 		}
+		if n >= 2 {
+			// directed (both vote routers): payloads of ONE source transaction (same source chain, height, transaction
+			// hash and cross chain id) that differ in amount / destination / target contract are different messages:
+			// ceil(2N/3)-1 validators vote for the real one, a validator votes for a divergent one as the
+			// ceil(2N/3)-th vote (nothing may be released), then the real one gets its last vote
+			s.do("assetbind 5 2 aabb ccdd")
+			s.do("assetbind 6 2 aabb ccdd")
+			txh, cc2 := r.Rng.Bytes(32), r.Rng.Bytes(8)
+			real := makeTxPayload(txh, cc2, []byte{1, 2, 3}, 1000, []byte{8})
+			forged := [][]byte{makeTxPayload(txh, cc2, []byte{1, 2, 3}, 999999, []byte{8}), makeTxPayload(txh, cc2, []byte{6, 6, 6}, 1000, []byte{8}),
+				makeTxPayload(txh, cc2, []byte{1, 2, 3}, 1000, []byte{7})}[(h/2)%3]
+			cons := s.consensusNow()
+			thr := ceil23(len(cons))
+			for ri, router := range []string{"deposit", "rdeposit"} {
+				chain := uint64(5 + ri)
+				tail := ""
+				if router == "rdeposit" {
+					tail = " ok"
+				}
+				for _, v := range cons[:thr-1] {
+					s.do("%s %s %s %s%s", router, v.hex(), v.hex(), depositTok(chain, 77, real), tail)
+				}
+				byz := cons[thr-1]
+				s.do("%s %s %s %s%s", router, byz.hex(), byz.hex(), depositTok(chain, 77, forged), tail)
+				s.do("%s %s %s %s%s", router, byz.hex(), byz.hex(), depositTok(chain, 77, real), tail)
+				s.fullRound(func(sg, c string) string {
+					return fmt.Sprintf("%s %s %s %s%s", router, sg, c, depositTok(chain, 77, forged), tail)
+				})
+			}
+		}
 		if h%3 == 1 {
 			// directed: the quorum event was emitted, the validator set changes, signatures keep coming
 			mkSig := func(sg, c string) string {
@@ -857,7 +898,13 @@ func (f *gov) genVotes(s *sc) {
 				s.do("fee %s %s %d %d %d", sg, c, chain, view, r.Rng.Intn(5)*1000+r.Rng.Intn(3))
 			} else if r.Rng.Chance(1, 4) {
 				d := deposits[r.Rng.Intn(len(deposits))]
-				s.do("deposit %s %s %s", sg, c, d)
+				if r.Rng.Bool() {
+					s.do("deposit %s %s %s", sg, c, d)
+				} else {
+					// the same vote phase through the ripple router (chains 3 and 4 have no asset binding: a release
+					// fails in the continuation and the whole transaction, vote included, is reverted)
+					s.do("rdeposit %s %s %s fail", sg, c, d)
+				}
 			} else if r.Rng.Chance(3, 5) {
 				s.do("vote %s %s %s", sg, ids[r.Rng.Intn(len(ids))], c)
 			} else {
